@@ -728,6 +728,20 @@ class Body:
             return None
         return (self.term_operand(t["discr"]), [(int(a[0]), a[1]) for a in t["arms"]], t["otherwise"], t["dty"])
 
+    def branch_on_call(self, call):
+        """bool_edges of the branch that tests the result of `call`: normally the block the call returns to; when the call sits in an expanded helper the
+        test comes a few blocks later (the result travels through the helper's return place), so the branch is looked up by its condition term."""
+        if call.target is not None:
+            be = self.bool_edges(call.target)
+            if be and be[0] == call.result_term():
+                return be
+        rt = call.result_term()
+        for bi in sorted(self.reach(call.bb)):
+            be = self.bool_edges(bi)
+            if be and be[0] == rt:
+                return be
+        return self.bool_edges(call.target) if call.target is not None else None
+
     def bool_edges(self, bi):
         """For a switch on a bool: (cond term, true_target, false_target) else None."""
         si = self.switch_info(bi)
